@@ -4,7 +4,7 @@
     every run ([Consts.v]). *)
 From Coq Require Import List NArith ZArith Bool.
 Import ListNotations.
-Require Import Aurora.Consts Aurora.C38.Model Aurora.C38.Proofs Aurora.C38.ProofsFlood Aurora.C38.ProofsTerm.
+Require Import Aurora.Consts Aurora.C38.Model Aurora.C38.Proofs Aurora.C38.ProofsFlood Aurora.C38.ProofsTerm Aurora.C38.ProofsTerm2.
 Local Open Scope N_scope.
 
 Definition W : N := Z.to_N (Consts.multicast_multicastMsgCache / 1000000).
@@ -68,22 +68,27 @@ Theorem C38_forwards_bounded : forall (s : net) (evs : list ev) (origin : addr) 
 Proof. exact (forwards_bounded_thm W MaxKnown). Qed.
 Print Assumptions C38_forwards_bounded.
 
-(** Flooding stops.  From any state whose packets in flight all carry an
-    origin, with no further origination or injection, for any interleaving of
-    deliveries, losses and clock ticks that stays within one de-duplication
+(** Flooding stops.  From ANY state — the soup may hold forged packets without
+    an origin, which the receiver re-stamps as a new message of its own — for
+    any interleaving of deliveries, losses, clock ticks and adversarial
+    injections of arbitrary packets that stays within one de-duplication
     window ([ticks evs <= W]): the number of deliveries / losses that actually
-    consume a packet, plus what is still in flight at the end, is bounded by
-    the initial soup plus, per packet in flight, the sum over all nodes of
-    their fan-out for its group ([fb]: connected + kept members, 4 for a
-    relaying non-member).  Hence after that many effective steps nothing is
-    in flight, and then nothing happens any more ([C38_quiescent]). *)
+    consume a packet, plus what is still in flight at the end, is at most
+
+      |soup| + sum over packets in flight of tfb(gid)            (initial state)
+             + sum over injected packets of (1 + tfb(gid))        ([inj_cost])
+
+    where [tfb nodes gid] is the sum over all nodes of their fan-out for the
+    group ([fb]: connected + kept members, 4 for a relaying non-member).
+    Without injections the flood therefore dies after a bounded number of
+    steps whatever was in flight; an adversary keeps it alive only as long as
+    it keeps injecting, each injected packet buying at most 1 + tfb steps. *)
 Theorem C38_flood_terminates : forall (s : net) (evs : list ev),
-  forallb net_ev evs = true ->
-  (forall p, In p (soup s) -> m_origin (p_msg p) <> []) ->
+  forallb net_ev2 evs = true ->
   ticks evs <= W ->
   (neff W MaxKnown s evs + length (soup (fst (run W MaxKnown s evs))) <=
-   length (soup s) + lsum (map (fun nd => lsum (map (fun p => fb nd (m_gid (p_msg p))) (soup s))) (nodes s)))%nat.
-Proof. exact (flood_terminates_thm W MaxKnown). Qed.
+   length (soup s) + lsum (map (fun p => tfb (nodes s) (m_gid (p_msg p))) (soup s)) + inj_cost (nodes s) evs)%nat.
+Proof. exact (flood_terminates2_thm W MaxKnown). Qed.
 Print Assumptions C38_flood_terminates.
 
 Theorem C38_quiescent : forall (s : net) (e : ev), soup s = [] -> net_ev e = true ->
@@ -102,7 +107,9 @@ Print Assumptions C38_prune_bound.
     known peer; its message reaches node 1 once, a duplicate is swallowed, the
     same packet after the window is delivered again ([0; W+1]); the flood from
     the state after origination satisfies the hypotheses of
-    [C38_flood_terminates] and takes 3 effective steps (bound 12). *)
+    [C38_flood_terminates] and takes 3 effective steps; with a forged
+    origin-less packet injected on the way (re-stamped and flooded by its
+    receiver) 8 effective steps, bound 18. *)
 Definition ex_setup : list ev :=
   [EvG 0 (GNew [9] GJoin false); EvG 0 (EConnect [2]); EvG 0 (GAdd [9] [2] true); EvG 0 (GAdd [9] [3] true); EvG 0 (GAdd [9] [7] false);
    EvG 1 (GNew [9] GJoin false); EvG 1 (GSubscribe [9]); EvG 1 (EConnect [3]); EvG 1 (GAdd [9] [3] true); EvG 1 (EConnect [1]); EvG 1 (GAdd [9] [1] true);
@@ -112,16 +119,23 @@ Definition ex_s : net := fst (run W MaxKnown (init_net [[1]; [2]; [3]]) ex_setup
 Definition ex_flood : list ev :=
   [EvDeliver 0 []; EvDeliver 0 []; EvDeliver 5 []; EvDeliver 0 []; EvDrop 0; EvTick 10; EvDeliver 0 []].
 Definition ex_pkt : packet := mkPkt [1] [2] (mkMsg [1] 1 [9] [42]).
+(** a forged packet without origin, injected during the flood: node 1 re-stamps it as ([2], 1) *)
+Definition ex_forged : packet := mkPkt [7] [2] (mkMsg [] 5 [9] [66]).
+Definition ex_flood2 : list ev :=
+  [EvDeliver 0 []; EvInject ex_forged; EvDeliver 2 []; EvDeliver 0 []; EvDeliver 0 []; EvDeliver 0 []; EvDeliver 0 []; EvDeliver 0 []; EvDeliver 0 []].
 Definition ex_all : list ev :=
   ex_setup ++ [EvDeliver 0 []; EvInject ex_pkt; EvDeliver 1 []; EvTick (W + 1); EvInject ex_pkt; EvDeliver 1 []].
 Example C38_hyps_satisfiable :
   map (fun nd => map o_grp (heap (n_svc nd))) (nodes ex_s) =
     [[mkGroup [[2]] [[3]] [[7]]]; [mkGroup [[3]; [1]] [] []]; [mkGroup [[1]] [] []]]
   /\ map p_dst (soup ex_s) = [[2]; [3]]
-  /\ forallb net_ev ex_flood = true
-  /\ forallb (fun p => negb (aeqb (m_origin (p_msg p)) [])) (soup ex_s) = true
+  /\ forallb net_ev2 ex_flood = true
   /\ (ticks ex_flood <=? W) = true
   /\ (neff W MaxKnown ex_s ex_flood, length (soup (fst (run W MaxKnown ex_s ex_flood)))) = (3%nat, 0%nat)
+  /\ forallb net_ev2 ex_flood2 = true
+  /\ (neff W MaxKnown ex_s ex_flood2, length (soup (fst (run W MaxKnown ex_s ex_flood2))),
+      (length (soup ex_s) + lsum (map (fun p => tfb (nodes ex_s) (m_gid (p_msg p))) (soup ex_s)) + inj_cost (nodes ex_s) ex_flood2)%nat)
+     = (8%nat, 0%nat, 18%nat)
   /\ times sel_deliv 1 (false, [1], 1) (snd (run W MaxKnown (init_net [[1]; [2]; [3]]) ex_all)) = [0; W + 1]
   /\ times sel_fwd 1 (true, [1], 1) (snd (run W MaxKnown (init_net [[1]; [2]; [3]]) ex_all)) = [0; W + 1].
 Proof. vm_compute. repeat split; reflexivity. Qed.
